@@ -78,8 +78,8 @@ def families(tier):
             add('c01.shapes', f'{p1}+{p2}-{cs}', scn(buses, hs, main), p1=p1, p2=p2, cs=cs)
 
     # --- family 2: registration kinds (same fn under two patterns, duplicate names, methods, statics) --------
-    for kind, pats, dup in itertools.product(['async', 'sync', 'amethod', 'method', 'astatic'], [['P'], ['s:P'], ['*'], ['P', '*'], ['P', 's:P']], [False, True]):
-        hs = [dict(bus='A', pat=pats, name='h1', prog=[('ret', 1)] if kind in ('sync', 'method') else [('pause',), ('ret', 1)], kind=kind)]
+    for kind, pats, dup in itertools.product(['async', 'sync', 'amethod', 'method', 'astatic', 'abusmethod', 'busmethod'], [['P'], ['s:P'], ['*'], ['P', '*'], ['P', 's:P']], [False, True]):
+        hs = [dict(bus='A', pat=pats, name='h1', prog=[('ret', 1)] if kind in ('sync', 'method', 'busmethod') else [('pause',), ('ret', 1)], kind=kind)]
         if dup:
             hs.append(dict(bus='A', pat='P', name='h2', fname='h1', prog=[('ret', 2)], kind='async'))
         hs.append(dict(bus='A', pat='X', name='hx', prog=[('disp', 'A', 'P', 'ff')]))
@@ -92,6 +92,13 @@ def families(tier):
               dict(bus='A', pat='*', name='h3', prog=[('pause',), ('ret', 3)]), dict(bus='A', pat='P', name='h4', prog=[('disp', 'A', 'C', 'await')]), dict(bus='A', pat='C', name='hc', prog=[('ret', 1)])]
         main = [('disp', 'A', 'P', 'ff'), ('disp', 'A', 'X', 'ff'), ('pause',), ('disp', 'A', 'P2', 'ff')]
         add('c01.registration', f'raises-{kind}-{exc}', scn({'A': {}}, hs, main), kind=kind)
+    # --- family 2c: handlers that are bound methods of an EventBus instance (a component class deriving from EventBus that subscribes its own methods),
+    # registered on that bus itself or on another bus, reached directly and through forwarding
+    for kind, owner, reg_on, entry in itertools.product(['abusmethod', 'busmethod'], 'AB', 'AB', 'AB'):
+        hs = [dict(bus=reg_on, pat='P', name='hm', prog=[('ret', 1)] if kind == 'busmethod' else [('pause',), ('ret', 1)], kind=kind, owner=owner),
+              dict(bus='A', pat='P', name='hpA', prog=[('ret', 'a')]), dict(bus='B', pat='P', name='hpB', prog=[('ret', 'b')])]
+        main = [('disp', entry, 'P', 'ff'), ('disp', 'A', 'X', 'ff')]
+        add('c01.registration', f'{kind}-own{owner}-on{reg_on}-entry{entry}', scn({'A': {}, 'B': {}}, hs, main, forwards=[('A', 'B'), ('B', 'A')]), kind=kind)
     # --- family 3: re-dispatch of the same object to the same bus: pending / in flight / completed -----------
     for when, pshape, nb, fwd in itertools.product(['pending', 'inflight', 'completed', 'actor'], ['pause', 'c_aw', 'c_ff_pause', 'redisp_self'], (1, 2), (False, True)):
         if nb == 1 and fwd:
